@@ -168,3 +168,79 @@ def track_corrections_contract(n: int) -> FunctionContract:
         {f"W002_iff_normalization_record[n={n}]": post, f"W002_carries_the_record[n={n}]": post_fields},
         call=lambda f, args: args["self"]._track_corrections(args["original"], args["canonical"], args["tokenize_repairs"]),
     )
+
+
+# ---- tokenize: position bookkeeping after a table match (C07: receipts carry the position of the occurrence) -------
+# Block: `newline_count = matched_text.count("\n")` + the if/else that updates line / column. Ghosts decompose the
+# matched text at its last newline: matched_text == head_ ++ "\n" ++ tail_ with no newline in tail_ (has_nl), else no newline.
+
+from verif.pyvc import loopstep as _LS
+from verif.pyvc import spec as S
+from verif.pyvc.verify import Bool
+
+LEXER_MOD = "octave_mcp.core.lexer"
+
+
+def _locate_position_update(fn):
+    """in the table loop's `if match:` body: the statements after the last one that touches tokens / repairs and before
+    `pos = match.end()` - whatever they look like, they are the position bookkeeping"""
+    import ast as _ast
+
+    from verif.extract import ExtractionError as _EE
+
+    for loop in _ast.walk(fn):
+        if isinstance(loop, _ast.For) and _ast.unparse(loop.iter) == "compiled_patterns":
+            for st in loop.body:
+                if isinstance(st, _ast.If) and _ast.unparse(st.test) == "match":
+                    body = st.body
+                    ends = [k for k, x in enumerate(body) if _ast.unparse(x) == "pos = match.end()"]
+                    if len(ends) != 1:
+                        raise _EE("tokenize: `pos = match.end()` not found exactly once in the table branch")
+                    j = ends[0]
+                    i = 0
+                    for k in range(j):
+                        names = {n.id for n in _ast.walk(body[k]) if isinstance(n, _ast.Name)}
+                        if names & {"tokens", "repairs", "token", "bracket_stack"}:
+                            i = k + 1
+                    return body, i, j
+    raise _EE("tokenize: table branch not found")
+
+
+def _pos_block():
+    return _LS.range_function(LEXER_MOD, "tokenize", _locate_position_update, "position_update")
+
+
+def _pos_pre(a):
+    nl = "\n"
+    if S.symbolic(a.matched_text, a.head_, a.tail_):
+        whole = z3.Concat(a.head_, z3.StringVal(nl), a.tail_)
+        return z3.And(a.line >= 1, a.column >= 1, z3.If(a.has_nl, z3.And(a.matched_text == whole, z3.Not(z3.Contains(a.tail_, z3.StringVal(nl)))), z3.Not(z3.Contains(a.matched_text, z3.StringVal(nl)))))
+    return a.line >= 1 and a.column >= 1 and ((a.matched_text == a.head_ + nl + a.tail_ and nl not in a.tail_) if a.has_nl else nl not in a.matched_text)
+
+
+def _pos_ret(r, name, names=("column", "line")):
+    return S.items(r)[list(names).index(name)]
+
+
+POSITION_UPDATE = FunctionContract(
+    LEXER_MOD,
+    "tokenize",
+    label="#position_update",
+    step=_pos_block,
+    params={"column": Int(), "line": Int(), "matched_text": Str(), "head_": Str(), "tail_": Str(), "has_nl": Bool()},
+    pre=_pos_pre,
+    posts={
+        # a token without a newline stays on its line and moves the column by its length
+        "same-line": lambda a, r: S.Implies(S.Not(a.has_nl), S.And(_pos_ret(r, "line") == a.old.line, _pos_ret(r, "column") == a.old.column + S.length(a.matched_text))),
+        # a token with newlines moves down by exactly the number of "\n" it contains - nothing else is a line break -
+        # and the column is that of the text after its last "\n"
+        "newlines-only-count-lf": lambda a, r: S.Implies(a.has_nl, S.And(_pos_ret(r, "line") == a.old.line + S.count(a.matched_text, "\n"), _pos_ret(r, "column") == S.length(a.tail_) + 1)),
+    },
+    raises=(),
+    covers={"with-newline": lambda a, r: a.has_nl, "without": lambda a, r: S.Not(a.has_nl)},
+    replay_hints=[
+        dict(column=4, line=2, matched_text=t, head_=h, tail_=tl, has_nl=nlf)
+        for t, h, tl, nlf in (('"a b"', "", "", False), ('"a\rb"', "", "", False), ('"a\x0cb\x85c"', "", "", False), ('"""x\ny z"""', '"""x', 'y z"""', True), ('"""\n\r\n"""', '"""\n\r', '"""', True), ("abc", "", "", False))
+    ],
+    z3_first_ms=3000,
+)
